@@ -59,6 +59,17 @@ func c01Case(run *core.Run, st *jsCaseStats, label, src string, c jsConfig) {
 	}
 }
 
+var c01DefinitionEffects = []string{
+	"{class A{[h(1)]=1}}h(2)", "{class A{static [h(1)]=1}}h(2)", "{class A{[h(1)](){}}}h(2)", "{class A{static [h(1)](){}}}h(2)",
+	"{class A{get [h(1)](){return 1}}}h(2)", "{class A{static{h(1)}}}h(2)", "{class A extends h(1){}}h(2)", "{class A{static s=h(1)}}h(2)",
+	"{class A{[h(1)]}}h(2)", "{class A{[h(1)];[h(3)]=4;static [h(5)]}}h(2)", "{class A{x=h(1)}}h(2)", "{class A{static x;y(){h(1)}}}h(2)",
+	"if(h(0)){class A{[h(1)]=1}}h(2)", "if(h(0)){class A{[h(1)]}}else{class B{static [h(3)]}}h(2)", "function f(){{class A{[h(1)]=1}}}f();h(2)",
+	"function f(){{class A{static [h(1)]}}return 3}h(f());h(2)", "for(var i=0;i<2;i++){class A{[h(i)]=1}}h(2)", "switch(1){case 1:class A{[h(1)]=1}}h(2)",
+	"try{class A{[h(1)]=1}}finally{h(2)}", "l:{class A{[h(1)]=1}}h(2)", "{let o={[h(1)]:1}}h(2)", "{let [a=h(1)]=[]}h(2)", "{const {b=h(1)}={}}h(2)",
+	"{let {[h(1)]:c}={}}h(2)", "{function g(a=h(1)){}}h(2)", "{class A{[h(1)]=1}class B{[h(3)]=1}}h(2)", "{{class A{[h(1)]=1}}}h(2)",
+	"(()=>{{class A{[h(1)]=1}}})();h(2)", "{var C=class{[h(1)]=1}}h(2)", "{(class{[h(1)]=1})}h(2)", "{(class{static [h(1)]=1})}h(2)", "{(class extends h(1){})}h(2)",
+}
+
 func C01(run *core.Run) {
 	defer nodePool().Close()
 	st := &jsCaseStats{}
@@ -84,6 +95,13 @@ func C01(run *core.Run) {
 		}
 		for _, c := range cfgs {
 			jobs = append(jobs, job{fmt.Sprintf("corpus#%d", i), s, c})
+		}
+	}
+	// definition-time effects: a declaration whose name nobody uses, alone in a block, still runs what its
+	// definition evaluates (computed keys, static initialisers and blocks, heritage, default values of patterns)
+	for i, s := range c01DefinitionEffects {
+		for _, c := range c01Configs {
+			jobs = append(jobs, job{fmt.Sprintf("defeffect#%d", i), s, c})
 		}
 	}
 	ng := run.N(3000, 120000)
